@@ -114,6 +114,16 @@ CHECKS['C11'] = dict(
     note='Trusted as for C01; the variants are implementation-level observations.',
     design='7 (C11)')
 
+CHECKS['C12'] = dict(
+    technique='generation 0/1/2 differential (shipped parser vs parser regenerated from grammar.txt on repository, generated and corrupted descriptions; text fixed point of regeneration) resting on the Lean 4 refinement theorem for what emitted code computes',
+    text=('Proof part: by C01_codegen_refines_peg (and the flag table re-proved from source) the parser that any generation emits for a rule computes the PEG meaning of the expression objects it was generated from, so generations agree on every description iff they '
+          'were generated from equal objects and equal runtime text. That finite residue is checked on every run: shipped parser and generation 1 produce the same tree or the same rejection index for every description of the repository, for generated and for '
+          'corrupted descriptions; generation 1 accepts grammar.txt; generation 2 (generation 1 installed in a scratch copy) reproduces generation 1 byte for byte. PARTIAL: the metagrammar itself (templates, where, inline Python) is outside the Lean '
+          'expression type, and bootstrapping (exec/importlib) has no model - those parts are implementation-level.'),
+    note='Trusted as for C01; scratch copies live under a temporary directory outside /repo and /verif and are removed. The shipped parser.py text differs from generation 1 since the fix: commits changed runtime text; behaviour is compared.',
+    design='7 (C12)',
+    category='proof')
+
 NOT_YET = {
 }
 
